@@ -218,6 +218,48 @@ def machine_explore(ctx, machine_cls, n_examples, seed, steps=30):
 
 PropFail = _PropFail
 
+
+def atheris_explore(mod, ctx, pid, runs, seed, tier, seed_corpus=30):
+    """ Run the coverage-guided engine (vlib/fuzz_atheris.py) in a subprocess and fold its counters and
+    any failing case into ctx. Skipped (with a note) when atheris cannot be imported. """
+    import shutil
+    import subprocess
+    import tempfile
+    try:
+        import atheris  # noqa: F401
+    except Exception as exc:  # noqa
+        ctx.stats.notes.append(f'atheris engine skipped: {type(exc).__name__}')
+        return
+    out = tempfile.mkdtemp(prefix=f'ath_{pid}_')
+    try:
+        proc = subprocess.run([sys.executable, '-m', 'vlib.fuzz_atheris', pid, '--runs', str(runs), '--seed', str(seed),
+                               '--out', out, '--seed-corpus', str(seed_corpus), '--tier', tier],
+                              cwd=VERIF, capture_output=True, text=True)
+        spath = os.path.join(out, 'stats.json')
+        if not os.path.exists(spath):
+            ctx.stats.harness_errors.append('atheris run left no stats: ' + proc.stderr[-600:])
+            return
+        with open(spath, encoding='utf-8') as fil:
+            st = json.load(fil)
+        ctx.stats.cases += st['cases']
+        ctx.stats.evaluations += st['evaluations']
+        ctx.stats.keys |= set(st['keys'])
+        ctx.stats.labels.update(st['labels'])
+        ctx.stats.labels['atheris-execs'] += st['execs']
+        ctx.stats.skipped.update(st['skipped'])
+        for smp in st['samples'][:1]:
+            if len(ctx.stats.samples) < 3:
+                ctx.stats.samples.append(smp)
+        for fn in sorted(os.listdir(out)):
+            if fn.startswith('failure-') and fn.endswith('.json'):
+                with open(os.path.join(out, fn), encoding='utf-8') as fil:
+                    rep = json.load(fil)
+                res = mod.check(rep['case'])
+                res.labels.append('found-by-atheris')
+                ctx.record(rep['case'], res)
+    finally:
+        shutil.rmtree(out, ignore_errors=True)
+
 # ------------------------------------------------------------------------------------------------
 # Jobs (run in worker processes)
 
